@@ -534,6 +534,7 @@ type FuncSpec struct {
 	Anchors  []*Anchor
 	Observe  []string
 	Opaque   []string
+	CallReqs []*CallReq // exit require clauses
 	ExitRows []*Row // event rows for the path from the last cut point to return
 	EntryRows []*Row
 	Inline   bool // never use modularly (always inline)
@@ -546,6 +547,17 @@ type FuncSpec struct {
 	File     string
 	Pkg      string // rel pkg of the contract file
 	Opts     map[string]string
+}
+
+// CallReq: "exit require name: call F(args) as (r..) when COND then POST" (loop-free functions): on every path
+// on which COND holds at the exit, F was called exactly once and the call satisfies POST.
+type CallReq struct {
+	Name string
+	Pat  *EvPat
+	When *SExpr
+	Then *SExpr
+	Tags []string
+	Text string
 }
 
 type SpecFn struct {
@@ -1279,6 +1291,30 @@ func (sp *Specs) LoadFile(path, pkgRel string) error {
 			}
 		case "exit", "entry":
 			// exit row name: [events] when cond
+			if kw == "exit" && strings.HasPrefix(rest, "require ") {
+				tags, r := parseTags(strings.TrimPrefix(rest, "require "))
+				name, body := parseLabel(r)
+				iw := strings.Index(body, " when ")
+				it := strings.LastIndex(body, " then ")
+				if iw < 0 || it < iw {
+					return fail(ln, fmt.Errorf("exit require name: call F(..) as (..) when COND then POST"))
+				}
+				pat, err := parseEvPat(strings.TrimSpace(body[:iw]))
+				if err != nil {
+					return fail(ln, err)
+				}
+				we, err := ParseSpecExpr(strings.TrimSpace(body[iw+6 : it]))
+				if err != nil {
+					return fail(ln, err)
+				}
+				te, err := ParseSpecExpr(strings.TrimSpace(body[it+6:]))
+				if err != nil {
+					return fail(ln, err)
+				}
+				cur.CallReqs = append(cur.CallReqs, &CallReq{Name: name, Pat: pat, When: we, Then: te, Tags: tags, Text: body})
+				cur.Observe = append(cur.Observe, pat.Fn)
+				continue
+			}
 			if !strings.HasPrefix(rest, "row ") {
 				return fail(ln, fmt.Errorf("%s row ...", kw))
 			}
